@@ -52,7 +52,7 @@ type Case struct {
 
 var ops = []string{"unweld", "unref", "flip", "flip2", "weld", "weldAfterUnweld", "nullfaces", "append", "repeat", "pointcloud",
 	"filter1", "filter2", "filter3", "filter4", "crop", "translate", "scale", "rotate", "trs", "scaleAttr", "scaleAttr2D", "translateAttr", "rotateAttr",
-	"center", "normalize", "normalize2D", "smooth", "flat", "laplacian", "split", "setidxUnref", "transformers", "scaleAlongNormal"}
+	"center", "normalize", "normalize2D", "smooth", "flat", "laplacian", "split", "setidxUnref", "transformers", "scaleAlongNormal", "appendTwice"}
 
 var tri = []modeling.Topology{modeling.TriangleTopology}
 var pt = []modeling.Topology{modeling.PointTopology}
@@ -64,7 +64,7 @@ func genCase(t *rapid.T) Case {
 	switch op {
 	case "flip", "flip2":
 		o.Topos = tri
-	case "weld", "weldAfterUnweld", "nullfaces", "repeat", "smooth", "flat", "laplacian", "split", "scaleAlongNormal":
+	case "weld", "weldAfterUnweld", "nullfaces", "repeat", "smooth", "flat", "laplacian", "split", "scaleAlongNormal", "appendTwice":
 		o.Topos, o.NeedPos = tri, true
 	case "filter1", "filter2", "filter3", "filter4", "crop":
 		o.Topos, o.NeedPos = pt, true
@@ -77,7 +77,7 @@ func genCase(t *rapid.T) Case {
 		o.MinPrims = 2
 	}
 	c.M = gen.Mesh(t, o, "m")
-	if op == "append" {
+	if op == "append" || op == "appendTwice" {
 		o.Topos = []modeling.Topology{c.M.Topology()}
 		m2 := gen.Mesh(t, o, "m2")
 		c.M2 = &m2
@@ -431,6 +431,44 @@ func runOp(c Case, m modeling.Mesh, P []float64, X []int, a vector3.Float64, q q
 					return fail("attribute-dropped", "attribute %s vanished", name)
 				}
 			}
+		}
+	case "appendTwice":
+		// two results appended to ONE base whose arrays were grown by the library itself (weld output keeps
+		// spare capacity): the first result must still say "base then b" after the second one was built
+		base := m.WeldByFloat3Attribute(modeling.PositionAttribute, 3)
+		b := c.M2.Build()
+		r1 := base.Append(b)
+		want := append(oracle.Corners(base, nil), oracle.Corners(b, nil)...)
+		_ = want
+		// the right-hand side lacks / adds attributes: compare through the subset rule corner by corner
+		check := func(when string) *vh.Failure {
+			nb := base.Indices().Len()
+			if r1.Indices().Len() != nb+b.Indices().Len() {
+				return fail("index-count", "%s: %d indices", when, r1.Indices().Len())
+			}
+			for i := 0; i < r1.Indices().Len(); i++ {
+				src, sv := base, 0
+				if i < nb {
+					sv = base.Indices().At(i)
+				} else {
+					src, sv = b, b.Indices().At(i-nb)
+				}
+				if err := cornerSubsetEq(src, sv, r1, r1.Indices().At(i)); err != nil {
+					return fail("first-result-changed", "%s: corner %d of the FIRST append result: %v", when, i, err)
+				}
+			}
+			return nil
+		}
+		if f := check("right after the first append"); f != nil {
+			return f
+		}
+		b2 := meshops.FlipTriangleWinding(b).Translate(vector3.New(1., 2, 3))
+		r2 := base.Append(b2).Append(b)
+		if f := wf(r2); f != nil {
+			return f
+		}
+		if f := check("after a second mesh was appended to the same base"); f != nil {
+			return f
 		}
 	case "repeat":
 		k := X[0]
@@ -926,6 +964,88 @@ func cornerSubsetEq(src modeling.Mesh, sv int, r modeling.Mesh, rv int) error {
 	return nil
 }
 
+// ---------------------------------------------------------------- large meshes (beyond 16-bit counts)
+
+// LargeCase is a recipe (not the arrays themselves) for a mesh with more than 65 536 vertices, most of
+// them unreferenced or referenced only at the far end, so that counters, shift tables and fast paths
+// that behave differently beyond 16 bits are exercised by the same references.
+type LargeCase struct {
+	Op   string
+	N    int // vertex count
+	Topo int
+	P    []float64
+	X    []int
+}
+
+var largeOps = []string{"unref", "unweld", "flip", "weld", "nullfaces", "append", "repeat", "pointcloud", "filter1", "filter3", "crop",
+	"translate", "scale", "rotate", "trs", "scaleAttr", "translateAttr", "rotateAttr", "center", "normalize", "smooth", "flat", "laplacian", "split", "scaleAlongNormal"}
+
+func genLargeCase(t *rapid.T) LargeCase {
+	c := LargeCase{Op: rapid.SampledFrom(largeOps).Draw(t, "op"), N: 65536 + rapid.IntRange(1, 3000).Draw(t, "over")}
+	switch c.Op {
+	case "filter1", "filter3", "crop":
+		c.Topo = int(modeling.PointTopology)
+	case "unref", "unweld", "pointcloud", "translate", "scale", "rotate", "trs", "scaleAttr", "translateAttr", "rotateAttr", "center", "normalize", "append":
+		c.Topo = int(rapid.SampledFrom([]modeling.Topology{modeling.TriangleTopology, modeling.PointTopology}).Draw(t, "topo"))
+	}
+	for i := 0; i < 8; i++ {
+		c.P = append(c.P, float64(rapid.IntRange(-16, 16).Draw(t, "p"))/8)
+	}
+	switch c.Op {
+	case "weld":
+		c.X = []int{rapid.IntRange(2, 4).Draw(t, "decimals")}
+	case "laplacian":
+		c.X = []int{1}
+		c.P[0] = 0.5
+	case "nullfaces":
+		c.P[0] = 0.01
+	case "repeat":
+		c.X = []int{2}
+	case "filter1":
+		c.P[0] = float64(c.N - rapid.IntRange(1, 6).Draw(t, "keepLast")) // keep only the last few vertices: > 65 535 dropped before them
+	case "filter3", "crop":
+		c.P[0] = float64(rapid.IntRange(-2, 2).Draw(t, "th"))
+	}
+	return c
+}
+
+func (c LargeCase) desc() gen.MeshDesc {
+	n := c.N
+	d := gen.MeshDesc{Topo: c.Topo, N: n, V1: map[string][]gen.F{"vid": make([]gen.F, n)}, V3: map[string][][3]gen.F{modeling.PositionAttribute: make([][3]gen.F, n), modeling.NormalAttribute: make([][3]gen.F, n)}}
+	for i := 0; i < n; i++ {
+		d.V1["vid"][i] = gen.F(i)
+		d.V3[modeling.PositionAttribute][i] = [3]gen.F{gen.F(i%251) / 8, gen.F((i/251)%251) / 8, gen.F(i/63001)/8 + gen.F(i%7)/64}
+		d.V3[modeling.NormalAttribute][i] = [3]gen.F{gen.F(i%5) - 2, gen.F(i%3) - 1, 1}
+	}
+	// referenced: a few vertices at the start, a few in the middle, a few at the very end; everything else unreferenced
+	ref := []int{0, 1, 2, 2, 1, 3, n/2 + 1, n / 2, n/2 + 5, n - 3, n - 2, n - 1, 0, n - 1, n / 2, n - 1, n - 4, 5}
+	if modeling.Topology(c.Topo) == modeling.PointTopology {
+		ref = []int{n - 1, 0, n / 2, 3, n - 2, n - 1}
+	}
+	d.Idx = ref
+	return d
+}
+
+func runLargeCase(c LargeCase, o *vh.Obs) *vh.Failure {
+	if c.N <= 65536 || c.N > 80000 {
+		return nil
+	}
+	cc := Case{Op: c.Op, M: c.desc(), P: c.P, X: c.X}
+	switch c.Op {
+	case "append":
+		small := gen.MeshDesc{Topo: c.Topo, N: 3, Idx: []int{0, 1, 2}, V3: map[string][][3]gen.F{modeling.PositionAttribute: {{0, 0, 0}, {1, 0, 0}, {0, 1, 0}}}}
+		cc.M2 = &small
+	case "split":
+		k := cc.M.PrimCount()
+		cc.X = []int{2, 0, k - 3, 1, 1, 0}
+	}
+	f := runCase(cc, o)
+	o.Class("large/" + c.Op)
+	o.NonTrivial()
+	return f
+}
+
 func TestC03(t *testing.T) {
 	vh.Drive(t, vh.Spec[Case]{Name: "ops", Quick: 320000, Thorough: 3000000, Gen: genCase, Run: runCase})
+	vh.Drive(t, vh.Spec[LargeCase]{Name: "large-meshes", Quick: 400, Thorough: 12000, Gen: genLargeCase, Run: runLargeCase})
 }
